@@ -608,7 +608,7 @@ def run_impl_batch(cases, shared=False):
 # A session case is {"session": [step, ...]}; every step is an ordinary (or widened) case with its own script and request
 # kind.  The model has no state between requests (`Model/ClientSession.lean`: `runSession`; theorem `session_step`: the
 # i-th result of a session is the result of that request alone, whatever preceded it), so every step is judged against
-# its own `run` / `runx` line.  What the implementation may carry from one request to the next lives in the process
+# its own `run` / `runx` line (sessions of plain steps are also sent through the driver's `session` command = `runSession`).  What the implementation may carry from one request to the next lives in the process
 # (module / class level state of the parser, the client classes, ...), so a session must start from a process with no
 # history: a helper process ("zygote") is forked before the check has parsed anything; it never runs a case itself and
 # forks one child per session.
